@@ -55,7 +55,7 @@ H void h_cubic_state(const double* x, const double* f, const double* f2, long n,
 // the interpreter: its arguments are captured, its result is a vector of fresh symbols).  Returns f_ and f2_ afterwards.
 H long h_fit(const double* grid, long ngrid, const double* x, const double* y, long n, long periodic, double* f, double* f2) {
   try {
-    CubicSpline s; s.setBC(periodic ? Spline::splinePeriodic : Spline::splineNormal);
+    CubicSpline s; s.setBC(periodic == 1 ? Spline::splinePeriodic : (periodic == 2 ? Spline::splineDerivativeZero : Spline::splineNormal));
     s.r_ = vec(grid, ngrid);
     s.Fit(vec(x, n), vec(y, n));
     for (long i = 0; i < ngrid; i++) { f[i] = s.f_(i); f2[i] = s.f2_(i); }
